@@ -214,6 +214,10 @@ def rdf_cases():
             for ex in extras:
                 rec = sweeps.shape_ops("D", S("ex"), "A", kind, mask, idmode)
                 out.append(("rdf|%s%r|%s" % (kind, mask, idmode), pre + (rec,) + ex))
+    # a document whose TriG text is longer than any copy block and dense in multi-byte characters
+    for kind in ("entity", "generation"):
+        rec = sweeps.shape_ops("D", S("ex"), "A", kind, () if kind == "entity" else (True, True, True), "id")
+        out.append(("rdf|%s|large-dense-non-ascii" % kind, pre + (rec, ("at", nm("k"), "s_big_dense"), ("at", nm("k2"), "s_uni"))))
     # two relations sharing a subject
     rels = [("generation", (True, True, False)), ("generation", (True, True, True)), ("usage", (True, True, False)),
             ("derivation", (True, True, False, False, False)), ("attribution", (True, True)),
